@@ -106,7 +106,17 @@ class FileBackups:
             backups = self._backups
             self._backups = []
 
+        restored_filenames = set()
         for filename, backup_filename in backups:
+            # If we backed up a file multiple times, then only the first
+            # backup stores the contents from before the build. The other
+            # backups store files that were created during the build. (This
+            # may happen during builds that use multithreading.)
+            norm_cased_filename = os.path.normcase(filename)
+            if norm_cased_filename in restored_filenames:
+                continue
+            restored_filenames.add(norm_cased_filename)
+
             if os.path.isdir(filename):
                 logger.error(
                     'Unable to restore old contents of {:s}, because it is an '
